@@ -61,6 +61,7 @@ type stubUp struct {
 	gate     bool // hold /healthz requests until released by the harness
 	autoCode int  // answer for /healthz when not gated
 	hits     int  // /healthz arrivals
+	expired  int  // held /healthz requests abandoned by the prober
 	held     []*heldProbe
 	proxied  int // proxied (non-/healthz) arrivals
 	streams  map[string]*streamRec
@@ -79,9 +80,15 @@ func (s *stubUp) reset(gate bool) {
 		h.ch <- 200
 	}
 	s.held = nil
-	s.gate, s.autoCode, s.hits, s.proxied = gate, 200, 0, 0
+	s.gate, s.autoCode, s.hits, s.proxied, s.expired = gate, 200, 0, 0, 0
 	s.streams = map[string]*streamRec{}
 	s.mu.Unlock()
+}
+
+func (s *stubUp) expiredProbes() int {
+	s.mu.Lock()
+	defer s.mu.Unlock()
+	return s.expired
 }
 
 func (s *stubUp) setGate(gate bool) {
@@ -126,7 +133,10 @@ func (s *stubUp) ServeHTTP(w http.ResponseWriter, r *http.Request) {
 		case code := <-hp.ch:
 			answerProbe(w, code)
 		case <-r.Context().Done():
+			// the prober gave up (its 5 s client timeout) before the harness answered: the machine is too
+			// slow for this history to mean anything
 			s.mu.Lock()
+			s.expired++
 			for i, h := range s.held {
 				if h == hp {
 					s.held = append(s.held[:i], s.held[i+1:]...)
@@ -493,7 +503,7 @@ func healthGoroutines() []hgState {
 // quiesce waits until no health-check goroutine can move: none runnable/running, and every
 // worker that is inside GatewayHealthCheck has its /healthz request held by a stub.
 func quiesce(stubs []*stubUp) []hgState {
-	deadline := time.Now().Add(5 * time.Second)
+	deadline := time.Now().Add(120 * time.Second)
 	stable := 0
 	for {
 		gs := healthGoroutines()
